@@ -12,11 +12,11 @@ claim("C06", "exploration",
       "Metamorphic/differential oracle: any partition of the compressed bytes into short reads and of the plain bytes into Writes must give the same result as the unchunked run.",
       "Trusts: the source never returns (0,nil); CLI read loop is under C19.", "DESIGN.md 4/C06")
 claim("C12", "exploration",
-      "property-based testing (rapid): histogram-recipe blocks through each entropy codec inside a longer bitstream; round-trip + bit-exact consumption + sentinel oracle",
+      "property-based testing (rapid): histogram-recipe blocks (sampled, exact geometric and Fibonacci counts), blocks built against the bit-wise coders' own predictors, and data-shape recipes through each entropy codec inside a longer bitstream; directed families at the scale-sized lengths; round-trip + bit-exact consumption + sentinel oracle",
       "Generated blocks (histogram shapes x lengths around chunk thresholds) are encoded between a byte prefix and a sentinel; decode must restore the block and leave the bit cursor exactly where the encoder stopped.",
       "Trusts: blocks start byte-aligned as in every caller.", "DESIGN.md 4/C12")
 claim("C13", "exploration",
-      "property-based testing (rapid): each transform on generated blocks with canary-guarded caller-owned buffers; inverse-of-forward, bound and clean-decline oracle",
+      "property-based testing (rapid): each transform on generated blocks (25 data-shape recipes incl. well-formed executables, 8-bit text with large vocabularies, fixed-width records, incompressible stretches; edge decorations) with canary-guarded caller-owned buffers; directed families at the internal chunk sizes and length-field limits (16 MiB ROLZ chunks, 2^16/2^21/2^24 literal runs, BWT above 4/8 MiB with up to 32 jobs); inverse-of-forward, bound and clean-decline oracle",
       "Per-transform forward/inverse pairs on detector-satisfying and adversarial data with data-type hints injected by reflection; checks the advertised bound, buffer canaries, src immutability on decline, and exact inversion into a decoder-sized buffer.",
       "Trusts: the harness's replica of the factory's context keys for the direct mode.", "DESIGN.md 4/C13")
 claim("C14", "exploration",
@@ -24,8 +24,8 @@ claim("C14", "exploration",
       "Writer and reader programs are compared with a trivially correct []bit model after every operation (counters, values, byte image, refusal after Close).",
       "Trusts: operation arguments stay in their documented domain.", "DESIGN.md 4/C14")
 claim("C15", "exploration",
-      "exhaustive enumeration of names x spellings and of all chains of length <= 3 for the name laws, plus rapid-drawn mixed-case chains; differential oracle against the canonical spelling",
-      "Every spelling must produce the canonical spelling's exact stream and decode; name<->type laws enumerated exhaustively for chains up to 3.",
+      "exhaustive enumeration of names x spellings and of all chains of length <= 3 for the name laws, rapid-drawn mixed-case chains with a differential oracle against the canonical spelling, and a chain-versus-composition oracle over all ordered pairs of transforms (a header type must denote the variant that coded its stage)",
+      "Every spelling must produce the canonical spelling's exact stream and decode; name<->type laws enumerated exhaustively for chains up to 3; a chain applied as one sequence must equal its stages built one by one from their own types.",
       "Trusts: cases whose canonical spelling does not round-trip are C01's business and are skipped (counted).", "DESIGN.md 4/C15")
 claim("C02", "exploration",
       "property-based testing (rapid) with structure-aware payload mutation positioned by an independent container parser; prefix oracle over all Read calls incl. after errors; exhaustive single-bit sweep on small streams",
@@ -64,7 +64,7 @@ claim("C07", "model_checking",
       "Every interleaving of up to 4 block tasks (at hook granularity), crossed with a failure of each task at each protocol step, data-caused failures, end-of-stream and skipped-block outcomes, is executed on the real Writer/Reader and its trace must be accepted by the 5-clause monitor; N=4 is complete in thorough and capped per plan in quick.",
       "Trusts: hook points cover every access to the shared counter; the reduction advances non-conflicting steps deterministically.", "DESIGN.md 4/C07")
 claim("C10", "exploration",
-      "differential property-based testing against a vendored pinned reference build (encoder and decoder) plus a 182-stream golden corpus with recorded SHA-256",
+      "differential property-based testing against a vendored pinned reference build (encoder and decoder) plus a 287-stream golden corpus with recorded SHA-256",
       "Streams are written by the frozen reference encoder and must decode with the current decoder to exactly what the reference decoder returns; archived streams must keep decoding to their recorded originals.",
       "Trusts: the vendored snapshot of commit 76efab5 as the definition of format 6.", "DESIGN.md 4/C10")
 claim("C18", "exploration",
